@@ -1,4 +1,4 @@
-REPO_COMMITS = ["0e45a8e", "f51d74e", "e08c0a5", "7c6f8e4", "33cf0bf", "a187bb0", "a08c8ef", "a09d5b7", "0ea38a2", "2e5f874", "0a1ffee", "684d35f", "eafd2f0", "9d5bf99", "790fbd0", "21822bf", "d0c90be"]
+REPO_COMMITS = ["0e45a8e", "f51d74e", "e08c0a5", "7c6f8e4", "33cf0bf", "a187bb0", "a08c8ef", "a09d5b7", "0ea38a2", "2e5f874", "0a1ffee", "684d35f", "eafd2f0", "9d5bf99", "790fbd0", "21822bf", "d0c90be", "58c4540", "83e0612", "4573dc5"]
 NOT_APPLICABLE = {}
 CHECKS = {
  "C05": dict(
@@ -41,4 +41,8 @@ CHECKS = {
   text="Held-on-what-was-observed: wrappers on randcap and randsphere check every returned point (count, ranges, long-double separation from the centre <= r + 1e-9 deg, returned radius == separation, box membership) with seeded legacy/new generators and with a duck-typed generator handing out boundary deviates (rim of the cap, cardinal position angles); Generator.sample is fed known deviates through a stub and compared with an own long-double inverse of the own trapezoid cumulative; the Cholesky samplers are checked by solving back to exactly the multiset of deviates a recording source handed out; random_indices for range/count/uniqueness; reproducibility by running every seeded call twice.",
   note="Trusts numpy long-double trigonometry, numpy.linalg.cholesky/solve (shared with the code). Deviates below the first tabulated cumulative value are unconstrained.",
   technique="API-boundary monitor with geometric oracle; stub/recording deviate sources making the sampler's map deterministic"),
+ "C01": dict(
+  text="Held-on-what-was-observed: each seeded table (raw random cell bytes, dtype zoo, hostile field names and header text) is written through one of five write routes, the file itself is inspected (bytes after the first line that is exactly END + blank line must equal the array buffer), and it is read back through up to twelve read routes including the cross route (written by sfile, read by Recfile given dtype, offset and row count); every result is compared on dtype structure (names, base type, byte order, sub-array shape) and raw bytes, every returned header on user keys (value and type), _SIZE and a _DTYPE that rebuilds the dtype. The workload is repeated on the ASan+UBSan build (fwrite/fread are intercepted).",
+  note="Trusts numpy tobytes/dtype comparison. >= 1 row, packed dtypes, finite header literals.",
+  technique="round-trip oracle on observed executions of every entry point plus file-level byte oracle; ASan+UBSan replay"),
 }
